@@ -103,7 +103,7 @@ Cred(id, rp, user, ctr, hm) == [id |-> id, rp |-> rp, user |-> user, ctr |-> ctr
 
 BaseCfg == [uvCap |-> "configured", upCap |-> TRUE, counterOn |-> TRUE, idLen |-> 16, hmac |-> "off", mc |-> FALSE,
             storeKind |-> "reference", disc |-> "full", emptyAsErr |-> FALSE,
-            wrap |-> "none"]     \* which shipped lock wrapper stands in front of the reference store (transparent in the model)
+            wrap |-> "none", tr |-> "default"]     \* which shipped lock wrapper stands in front of the reference store (transparent in the model)
 
 NoPrfReq == [given |-> FALSE, eval |-> "absent", byCred |-> <<>>, byCredGiven |-> FALSE]
 BaseReq == [rp |-> "r1", user |-> "u1", algs |-> <<"ES256">>, exclude |-> <<>>, excludeGiven |-> FALSE,
@@ -181,12 +181,20 @@ C05_Cers ==
 C05_NearContents ==
     { SelectSeq(<<Cred("c1", a, "u1", NoCtr, "none"), Cred("c3", c, "u2", Ctr(0, 1), "none")>>, LAMBDA x : x.rp # "absent") :
         a \in {"r1", "absent"}, c \in {"r1case", "r1sub"} }
+C05_NearLists == {<<"c1:pre">>, <<"c1:ext">>, <<"c1:flip">>, <<"id:empty">>, <<"c3:pre", "c1:ext">>}
 C05_NearCers ==
     { << Cer("ctap2", "ga", [BaseReq EXCEPT !.rp = r, !.allow = a, !.allowGiven = a # <<>>], BaseEnv) >> :
-        r \in {"r1", "r1case", "r1sub"}, a \in {<<>>, <<"c1">>, <<"c3">>, <<"c1", "c3">>} }
+        r \in {"r1", "r1case", "r1sub"}, a \in {<<>>, <<"c1">>, <<"c3">>, <<"c1", "c3">>} \cup C05_NearLists }
     \cup
     { << Cer("ctap2", "mc", [BaseReq EXCEPT !.rp = r, !.exclude = a, !.excludeGiven = TRUE, !.user = "u3"], BaseEnv) >> :
-        r \in {"r1", "r1case", "r1sub"}, a \in {<<"c1">>, <<"c3">>, <<"c1", "c3">>} }
+        r \in {"r1", "r1case", "r1sub"}, a \in {<<"c1">>, <<"c3">>, <<"c1", "c3">>} \cup C05_NearLists }
+\* an exclude-list hit together with something else that is wrong with the request: excluded "exactly when" a listed
+\* credential is held for the RP - the other defect does not get to answer first
+C05_PrecCers ==
+    { << Cer("ctap2", "mc", [BaseReq EXCEPT !.exclude = x, !.excludeGiven = TRUE, !.user = "u3", !.algs = a, !.pinAuth = p, !.rk = k], BaseEnv) >> :
+        x \in {<<"c1">>, <<"x1">>, <<"x1", "c2">>}, a \in {<<"ES256">>, <<"RS256">>, <<>>}, p \in BOOLEAN, k \in BOOLEAN }
+C05_PrecCfgs == { [BaseCfg EXCEPT !.disc = d] : d \in {"full", "nondisc"} }
+C05_PrecStores == { << <<Cred("c1", "r1", "u1", NoCtr, "none"), Cred("c2", "r1", "u2", Ctr(0, 1), "none")>> >> }
 C05_NearStores == { <<s>> : s \in C05_NearContents }
 C05_NearSlotStores == { <<s>> : s \in { t \in C05_NearContents : Len(t) <= 1 } }
 C05_CfgsRef == { [BaseCfg EXCEPT !.emptyAsErr = e] : e \in BOOLEAN }
@@ -382,9 +390,11 @@ C02ct_Cers == C02c_Cers \cup C02c_UnkCers
 
 -----------------------------------------------------------------------------
 (* C18: getInfo through both APIs                                           *)
-C18i_Cfgs == { [BaseCfg EXCEPT !.hmac = h, !.uvCap = u, !.upCap = p, !.disc = d] :
+C18i_Cfgs == { [BaseCfg EXCEPT !.hmac = h, !.uvCap = u, !.upCap = p, !.disc = d, !.tr = t] :
                  h \in {"off", "uvonly"}, u \in {"none", "unconfigured", "configured"}, p \in BOOLEAN,
-                 d \in {"full", "nondisc", "forced"} }
+                 d \in {"full", "nondisc", "forced"}, t \in {"default", "empty", "usb"} }
+\* C14: what the client emits when the authenticator has the default transports, none, or one
+C14e_Cfgs == { [BaseCfg EXCEPT !.tr = t, !.hmac = h, !.mc = TRUE] : t \in {"default", "empty", "usb"}, h \in {"off", "withoutuv"} }
 Env(u, p, d) == [api |-> "env", op |-> "reconfig", req |-> [uvCap |-> u, upCap |-> p, disc |-> d], env |-> BaseEnv]
 C18i_Cers == { << Cer("ctap2", "info", BaseReq, [BaseEnv EXCEPT !.cancelAt = k]) >> : k \in {-1, 0, 1} }
               \* the state of the authenticator includes what its environment reports now: capabilities asked before
@@ -423,5 +433,16 @@ C18s_Cers ==
         f \in { <<b, 0, 0>> : b \in 1..255 } \cup { <<0, b, 0>> : b \in 1..255 } }
     \cup
     { << Cer("ctap2", "mc", [BaseReq EXCEPT !.user = "u3"], [BaseEnv EXCEPT !.faults = <<b, 0, 0>>]) >> : b \in 1..255 }
+    \cup
+    \* client-data hashes of any length (the API takes bytes): empty, shorter than a word, SHA-1 / SHA-512 sized
+    { << Cer("ctap2", "mc", [BaseReq EXCEPT !.user = "u3", !.cdh = h], BaseEnv),
+         Cer("ctap2", "ga", [BaseReq EXCEPT !.allow = <<"c1">>, !.allowGiven = TRUE, !.cdh = h], BaseEnv) >> :
+        h \in {"h0", "h3", "h20", "h64"} }
+
+C14e_Cers ==
+    { << Cer("client", "mc", [WithCprf(BaseCReq, c) EXCEPT !.user = "u1", !.residentKey = rk, !.credProps = cp], BaseEnv),
+         Cer("client", "ga", [WithCprf(BaseCReq, c) EXCEPT !.allow = a, !.allowGiven = a # <<>>], BaseEnv) >> :
+        rk \in {"discouraged", "required"}, cp \in {"absent", "true"}, a \in {<<>>, <<"n1">>},
+        c \in {NoCprf, Cprf("prf", "two", <<>>, FALSE, FALSE)} }
 
 =============================================================================
